@@ -289,6 +289,47 @@ pub fn run_c20(a: &Args) {
             for h in handles { histories += 1; for (round, got) in h.join().unwrap() { if got != Some(want) { bad.push(format!("{n} operands: after a failed evaluation on the same thread (round {round}) the result is {got:?}, sequentially {want}")); } } }
         }
     }
+    // parsing does not depend on what was parsed before with ANOTHER operator factory over the same data type: factories
+    // with the same number of operators whose names are prefixes of each other (`*` and `**`), after the default
+    // factory has been used (above) and interleaved with it, sequentially and from several threads
+    {
+        use exmex::{BinOp, FloatOpsFactory, MakeOperators, Operator};
+        #[derive(Clone, Debug)] struct PyOps;
+        impl MakeOperators<f64> for PyOps { fn make<'a>() -> Vec<Operator<'a, f64>> {
+            let mut v: Vec<Operator<'a, f64>> = vec![];
+            for o in FloatOpsFactory::<f64>::make() {
+                if o.repr() == "^" { continue }
+                let is_mul = o.repr() == "*";
+                v.push(o);
+                if is_mul { v.push(Operator::make_bin("**", BinOp { apply: |a: f64, b: f64| a.powf(b), prio: 4, is_commutative: false })); }
+            }
+            v } }
+        #[derive(Clone, Debug)] struct PyOpsRev;
+        impl MakeOperators<f64> for PyOpsRev { fn make<'a>() -> Vec<Operator<'a, f64>> { let mut v = PyOps::make(); v.reverse(); v } }
+        let n_default = FloatOpsFactory::<f64>::make().len();
+        if PyOps::make().len() != n_default { bad.push("harness: PyOps does not have the operator count of the default factory".into()) }
+        let check = |who: &str, got: Result<f64, String>, want: f64, bad: &mut Vec<String>| { match got { Ok(v) if v == want => (), other => bad.push(format!("{who}: {other:?}, expected {want} (parsing depends on an earlier parse with another operator factory)")) } };
+        for round in 0..3 {
+            let d = FlatEx::<f64>::parse("2*x^3").map_err(|e| e.to_string()).and_then(|f| f.eval(&[3.0]).map_err(|e| e.to_string()));
+            check(&format!("default factory 2*x^3 round {round}"), d, 54.0, &mut bad);
+            let p = FlatEx::<f64, PyOps>::parse("2*x**3").map_err(|e| e.to_string()).and_then(|f| f.eval(&[3.0]).map_err(|e| e.to_string()));
+            check(&format!("factory with ** after the default factory, round {round}"), p, 54.0, &mut bad);
+            let p = FlatEx::<f64, PyOpsRev>::parse("2*x**3*2").map_err(|e| e.to_string()).and_then(|f| f.eval(&[3.0]).map_err(|e| e.to_string()));
+            check(&format!("reversed factory with **, round {round}"), p, 108.0, &mut bad);
+            let p = DeepEx::<f64, PyOps>::parse("(2*x)**2").map_err(|e| e.to_string()).and_then(|f| f.eval(&[3.0]).map_err(|e| e.to_string()));
+            check(&format!("deep, factory with **, round {round}"), p, 36.0, &mut bad);
+            histories += 4;
+        }
+        let handles: Vec<_> = (0..8).map(|tid| std::thread::spawn(move || {
+            let mut out = vec![];
+            for k in 0..6 { if (k + tid) % 2 == 0 {
+                    out.push(("default", FlatEx::<f64>::parse("2*x^3").map_err(|e| e.to_string()).and_then(|f| f.eval(&[3.0]).map_err(|e| e.to_string())), 54.0));
+                } else {
+                    out.push(("**", FlatEx::<f64, PyOps>::parse("2*x**3").map_err(|e| e.to_string()).and_then(|f| f.eval(&[3.0]).map_err(|e| e.to_string())), 54.0));
+                } }
+            out })).collect();
+        for h in handles { histories += 1; for (who, got, want) in h.join().unwrap() { check(&format!("threads, {who}"), got, want, &mut bad) } }
+    }
     // evaluation never modifies the expression
     let f = FlatEx::<f64>::parse("x*2+y").unwrap(); let before = format!("{f:?}"); let _ = f.eval(&[1.0, 2.0]); let _ = f.eval(&[3.0, 4.0]);
     if format!("{f:?}") != before { bad.push("FlatEx changed by eval".into()) }
